@@ -145,7 +145,7 @@ class CloneAbuseRule(BaseLintRule):
             List of filtered violations
         """
         return [
-            _build_violation_for_call(call, file_path)
+            _build_violation_for_call(call, file_path, _reported_pattern(call, config))
             for call in calls
             if not _should_skip_call(call, config)
         ]
@@ -163,21 +163,30 @@ def _should_skip_call(call: CloneCall, config: CloneAbuseConfig) -> bool:
     """
     if call.is_in_test and config.allow_in_tests:
         return True
-    config_key = _PATTERN_CONFIG_KEYS.get(call.pattern)
-    if config_key and not getattr(config, config_key):
-        return True
-    return False
+    return _reported_pattern(call, config) is None
 
 
-def _build_violation_for_call(call: CloneCall, file_path: str) -> Violation:
+def _reported_pattern(call: CloneCall, config: CloneAbuseConfig) -> str | None:
+    """Pick the first pattern of the call whose detect_* switch is on (the switches are independent)."""
+    for pattern in call.patterns or (call.pattern,):
+        config_key = _PATTERN_CONFIG_KEYS.get(pattern)
+        if not config_key or getattr(config, config_key):
+            return pattern
+    return None
+
+
+def _build_violation_for_call(
+    call: CloneCall, file_path: str, pattern: str | None = None
+) -> Violation:
     """Build a violation for a specific clone call.
 
     Args:
         call: Detected clone call with pattern info
         file_path: Path of the analyzed file
+        pattern: Pattern to report (default: the call's first pattern)
 
     Returns:
         Violation instance
     """
-    builder = _PATTERN_BUILDERS.get(call.pattern, build_clone_in_loop_violation)
+    builder = _PATTERN_BUILDERS.get(pattern or call.pattern, build_clone_in_loop_violation)
     return builder(file_path, call.line, call.column, call.context)
